@@ -1,5 +1,6 @@
 from __future__ import annotations
 
+import math
 from typing import Any, ClassVar
 
 from attr import define
@@ -58,14 +59,12 @@ class FloatProperty(PropertyProtocol):
     def convert_value(cls, value: Any) -> Value | None | PropertyError:
         if isinstance(value, Value) or value is None:
             return value
-        if isinstance(value, str):
+        if isinstance(value, (str, float)) or (isinstance(value, int) and not isinstance(value, bool)):
             try:
                 parsed = float(value)
-                return Value(python_code=str(parsed), raw_value=value)
-            except ValueError:
+            except (ValueError, OverflowError):
                 return PropertyError(f"Invalid float value: {value}")
-        if isinstance(value, float):
-            return Value(python_code=str(value), raw_value=value)
-        if isinstance(value, int) and not isinstance(value, bool):
-            return Value(python_code=str(float(value)), raw_value=value)
+            if not math.isfinite(parsed):  # inf and nan are neither JSON numbers nor Python names
+                return PropertyError(f"Invalid float value: {value}")
+            return Value(python_code=str(parsed), raw_value=value)
         return PropertyError(f"Cannot convert {value} to a float")
